@@ -69,7 +69,7 @@ CHECKS.update({
     "C04": dict(
         engine="E1 SymArray (z3) + independent IR interpreter",
         cat=TV,
-        text="For every compilation (captured from real calls of all operation families, adapters and factories; plus seeded random graphs over all IR node types built with einx's own constructors) z3 proves, for all tensor contents, that the cached function, the stand-alone exec() of the returned text (namespace = only the constants named in its header) and an independent node-by-node interpretation of the graph agree; code objects are compared and graph=True must return that text. A tick-stamped constant exposes double evaluation of shared nodes.",
+        text="For every compilation (captured from real calls of all operation families, adapters and factories; plus seeded random graphs over all IR node types built with einx's own constructors) z3 proves, for all tensor contents, that the cached function, the stand-alone exec() of the returned text (namespace = only the constants named in its header) and an independent node-by-node interpretation of the graph agree; code objects are compared and graph=True must return that text. A tick-stamped constant exposes double evaluation of shared nodes. Compile-sequence members (2-3 adapted operations with different constants, all compiled before any is evaluated) show that a compilation does not depend on other compilations.",
         note="Trusted: the IR interpreter in vlib/graphs.py (functional semantics for in-place nodes), SymArray models, z3. Random graphs <= 12 nodes (quick) / 25 (thorough). compiler/run.py is outside.",
         tech="translation validation: symbolic execution of generated code vs IR interpretation + SMT equivalence",
         ref="DESIGN.md §3 C04",
@@ -88,7 +88,7 @@ CHECKS.update({
     "C02": dict(
         engine="E4 z3 constraint systems",
         cat="other",
-        text="z3 is the arbiter of 'every assignment of positive integers': for each member (expression list incl. flatten/concat/ellipsis/numbers, shapes incl. unknown ones, keyword sizes; consistent, single-edit corrupted and >= 2**31 variants) one flat system per ellipsis-count vector is built from the structured description, independently of einx/sympy. einx's solve_axes/solve_shapes/matches outcome is judged: reported values must hold in EVERY model (uniqueness queries unsat), infeasible or ambiguous members must be rejected, members determined by reference unit propagation must be accepted, integers are unbounded (exactness).",
+        text="z3 is the arbiter of 'every assignment of positive integers': for each member (expression list incl. flatten/concat/ellipsis/numbers, shapes incl. unknown ones, keyword sizes; consistent, single-edit corrupted and >= 2**31 variants; plus 12 shared-axis templates x every keyword subset x every single edit) one flat system per ellipsis-count vector is built from the structured description, independently of einx/sympy. einx's solve_axes/solve_shapes/matches outcome is judged: reported values must hold in EVERY model (uniqueness queries unsat), infeasible or ambiguous members must be rejected, members determined by reference unit propagation must be accepted, integers are unbounded (exactness).",
         note="Bounded: ellipsis repetitions <= 4, <= 3 expressions, nested ellipses outside. z3 unknown -> inconclusive. Members are generated by construction + single-edit corruption (z3 adjudicates their class) rather than synthesised by the solver.",
         tech="SMT (nonlinear integer arithmetic) adjudication of the real solver's outcomes: feasibility + uniqueness queries per count vector",
         ref="DESIGN.md §3 C02",
@@ -99,15 +99,15 @@ CHECKS.update({
     "C03": dict(
         engine="E3 CrossHair + E4 z3 + E1 SymArray monitor",
         cat="other",
-        text="Layer 1: CrossHair symbolically executes the real pre-solve stage (parser, signature/bracket/keyword checks) of all 8 operation families over token sequences; exhaustive per condition. Layer 2: every family member is corrupted by one edit (dimension, rank, keyword, tensor count, axis dropped/duplicated/renamed, bracket/arrow/parenthesis edits); z3 decides on the independent constraint system whether the corrupted call is really ill-formed; ill-formed calls must raise a documented class, no call may raise an internal class. Layer 3: SymArray dispatch counter must be 0 when the exception surfaces.",
-        note="The sympy-backed solver is cut in layer 1 (sentinel stub). For string-level edits only 'no internal type' and 'no computation before rejection' are demanded. 13-token alphabet, length 3 (quick) / 4 (thorough).",
+        text="Layer 1: CrossHair symbolically executes the real pre-solve stage (parser, signature/bracket/keyword checks) of all 8 operation families over token sequences; exhaustive per condition. Layer 2: every family member is corrupted by one edit (dimension, rank, keyword, tensor count, axis dropped/duplicated/renamed, one bracket moved/added/removed, arrow/parenthesis edits); z3 decides on the independent constraint system whether the corrupted call is really ill-formed, and an own tokenisation decides the stated bracket rule (an axis is either bracketed or not); ill-formed calls must raise a documented class, no call may raise an internal class. Layer 3: SymArray dispatch counter must be 0 when the exception surfaces.",
+        note="The sympy-backed solver is cut in layer 1 (sentinel stub). For string-level edits that do not break the bracket rule only 'no internal type' and 'no computation before rejection' are demanded. 13-token alphabet, length 3 (quick) / 4 (thorough).",
         tech="CrossHair symbolic execution of the real entry stage + SMT adjudication of ill-formedness of single-edit corruptions",
         ref="DESIGN.md §3 C03",
     ),
     "C12": dict(
         engine="E3 CrossHair",
         cat="other",
-        text="CrossHair (z3-driven) executes the real stage1.parse_op, the real __str__ of the tree classes and the real el_op re-parsing of all operation families over token/chunk sequences selected by symbolic integers: totality with caller-quoting SyntaxErrors, invariance under redundant spaces, re-print stability. 'Confirmed over all paths' is exhaustive per alphabet and length. Arbitrary-character strings (symbolic str) are bug-finding only.",
+        text="CrossHair (z3-driven) executes the real stage1.parse_op, the real __str__ of the tree classes and the real el_op re-parsing of all operation families over token/chunk sequences selected by symbolic integers: totality with caller-quoting SyntaxErrors, invariance under redundant spaces (between chunks, and at two symbolic redundant-gap positions inside each of 40 valid corpus descriptions), re-print stability. 'Confirmed over all paths' is exhaustive per alphabet and length. Arbitrary-character strings (symbolic str) are bug-finding only.",
         note="Bounds: 13 tokens^3, 9 tokens^4, 17 chunks^2, 12 chunks^3, 8 chunks^3 x 3 spacing flags (quick); larger in thorough. Nothing is claimed beyond the alphabets.",
         tech="CrossHair symbolic execution of the real parser and printer (exhaustive path confirmation)",
         ref="DESIGN.md §3 C12",
